@@ -80,7 +80,11 @@ def closing(img: NDArray[np.bool_], scale: nm, radius: nm) -> NDArray[np.bool_]:
     if radius < 0:
         out = ndi.binary_opening(img, structure=structure, border_value=False)
     elif radius > 0:
-        out = ndi.binary_closing(img, structure=structure, border_value=False)
+        # NOTE: the erosion step of scipy's binary_closing regards the outside of the array
+        # as background, which removes the part of a mask that touches the array border.
+        # Close the image embedded in a background margin instead.
+        padded = np.pad(np.asarray(img, dtype=np.bool_), r, mode="constant")
+        out = ndi.binary_closing(padded, structure=structure)[r:-r, r:-r, r:-r]
     return out  # type: ignore
 
 
